@@ -60,6 +60,23 @@ namespace ipr {
       Printer& pp;
    };
 
+   // Some printing rules are fallbacks that re-dispatch the very node they were given
+   // (e.g. parenthesize and start over).  If the node comes back to the same fallback
+   // without any other rule having consumed it, then no rule supports it: report that
+   // as the documented logic error instead of recursing without bound.
+   struct Fallback_guard {
+      Fallback_guard(Printer& p, const Node& n) : pp{p}, saved{p.fallback_node}
+      {
+         if (saved == &n)
+            throw std::logic_error(std::string("no printing rule for ") + typeid(n).name());
+         pp.fallback_node = &n;
+      }
+      ~Fallback_guard() { pp.fallback_node = saved; }
+   private:
+      Printer& pp;
+      const Node* saved;
+   };
+
    Printer::Printer(const Lexicon& lex, std::ostream& os)
       : lexicon{lex}, 
         stream{os},
@@ -402,6 +419,7 @@ namespace ipr {
          }
          void visit(const Expr& e) override
          {
+            Fallback_guard guard { pp, e };
             pp << token('(') << xpr_expr(e) << token(')');
          }
          void visit(const Decl& d) override { d.name().accept(*this); }
@@ -1478,6 +1496,7 @@ namespace ipr {
       void visit(const Type& t) final
       {
          // FIXME: Check.
+         Fallback_guard guard { pp, t };
          pp << xpr_name(t.name());
       }
 
